@@ -591,6 +591,10 @@ func (s *c10Gen) session(t0 uint64, gops []int, stepMs int, video, audio bool, w
 }
 
 func genC10(g *G) {
+	// the delayed cleanup of an ended publish must spare a re-publish of the same name (server level, real timer)
+	for _, mode := range []int{1, 2, 0} {
+		g.L("republish-inside-cleanup-delay").run(fmt.Sprintf("hls.republish %d", mode))
+	}
 	// ---- boundary corpus (runs first) ----
 	// S19 witness: durations 3.4 s then 3.8 s, target duration must be >= 4
 	{
